@@ -124,11 +124,12 @@ class Run8:
         self.sess = None
         self.counts = {k: 0 for k in ["write", "flush", "merge", "gc", "move", "none", "reopen", "take", "drop", "verify_ok",
                                       "verify_backoff", "verify_err", "vkill", "vkill_reached", "skill", "skill_reached",
-                                      "roll", "trash_moves", "unlinks", "readd_same_edit", "readd_later", "compare", "selector_panic", "selector_panic_after_reopen", "stale_read_c01", "entries_compared"]}
+                                      "roll", "trash_moves", "unlinks", "readd_same_edit", "readd_later", "compare", "selector_panic", "selector_panic_after_reopen", "stale_read_c01", "entries_compared", "unlinks_checked", "readd_in_live_at_verify"]}
         self.seen_removed = set()
         self.last_view = None
         self.file_entries = {}
         self.readded = set()
+        self.k_names = set()      # setsums re-created while the verifier's recorded intent named them (known class)
         self.entries_before_close = None
         self.model.cmd("reset")
         self.open_session(first=True)
@@ -307,7 +308,8 @@ class Run8:
                 self.readded.add(a)
             if self.last_view and (a + ".sst") in self.last_view["vstrs"]:
                 # the store re-creates a setsum that the verifier has recorded for unlinking
-                self.known_events.append(("K-verifier-by-name", "a compaction re-creates %s while the verifier's recorded intent names trash/%s.sst" % (a[:8], a[:8]), len(self.events)))
+                self.known_events.append(("K-verifier-by-name", "a compaction re-creates %s while the verifier's recorded intent names trash/%s.sst" % (a[:8], a[:8]), len(self.events), a))
+                self.k_names.add(a)
         self.seen_removed |= set(e["rm"])
 
     def last_edit(self, frags):
@@ -440,6 +442,34 @@ class Run8:
         self.counts["drop"] += 1
         self.last_view = self.compare("drop", obs)
 
+    def incarnation_oracle(self, before, where):
+        """the property itself, on the implementation alone: an sst the verifier has just unlinked
+        from trash/ must not be added again by any edit the verifier has not verified yet (a
+        fragment numbered above its 'M' that is still on disk, or the live MANIFEST): otherwise
+        the file it removed is, or will be taken for, the trash entry of a removal in an
+        unverified fragment.  Inside the known class K-verifier-by-name (the re-adding edit was
+        applied while the recorded intent already named the setsum) this is a KNOWN-FINDING."""
+        if self.dead or not before or not self.last_view:
+            return
+        gone = [x for x in before["ls"]["trash"] if x not in self.last_view["ls"]["trash"]]
+        if not gone:
+            return
+        vm = self.last_view["vm"]
+        m = int(vm[9:]) if vm.startswith("MANIFEST.") else -1
+        later_adds = set()
+        for name, edits in self.all_edits():
+            if name != "MANIFEST" and int(name[9:]) <= m:
+                continue
+            for e in edits:
+                later_adds |= set(e["add"])
+        self.counts["unlinks_checked"] += len(gone)
+        for x in gone:
+            if x in later_adds:
+                if x in self.k_names:
+                    self.known_events.append(("K-verifier-by-name", "the verifier unlinked trash/%s.sst, re-created while its recorded intent named it" % x[:8], len(self.events), x))
+                else:
+                    self.problem("incarnation", what="the verifier unlinked trash/%s.sst although an edit it has not verified (fragment above %s or the live MANIFEST) adds that setsum again, %s" % (x, vm, where), name=x)
+
     def verify(self):
         """a complete verifier pass, in the store's process"""
         if self.dead:
@@ -452,6 +482,7 @@ class Run8:
             self.problem("verifier", what="verifier pass failed", out=out[:500])
         before = self.last_view
         self.last_view = self.compare("verifier pass (%s)" % cls, obs)
+        self.incarnation_oracle(before, "in a complete pass")
         if cls == "backoff" and self.last_view:
             # a pass waits for a trash entry.  Normally the file is still in sst/ (a reader holds it).
             # If it is in neither directory the pass can never go on: for an sst that is the known
@@ -462,7 +493,7 @@ class Run8:
                 name = path[:-4]
                 if name not in ls["sst"] and name not in ls["trash"]:
                     if name in self.readded:
-                        self.known_events.append(("K-verifier-by-name", "the verifier waits for trash/%s.sst, which it unlinked itself when it processed an earlier removal of that setsum" % name[:8], len(self.events)))
+                        self.known_events.append(("K-verifier-by-name", "the verifier waits for trash/%s.sst, which it unlinked itself when it processed an earlier removal of that setsum" % name[:8], len(self.events), name))
                     else:
                         self.problem("verifier", what="the verifier waits for an sst that is in neither sst/ nor trash/ and was never re-created", path=path)
             elif path.startswith("log."):
@@ -492,7 +523,9 @@ class Run8:
         if reached_model != reached_impl:
             self.problem("corr", what="verifier pass: the model and the implementation disagree on whether a %d-th unlink happens" % j,
                          impl=out[:200], model=m[:80])
+        before = self.last_view
         self.last_view = self.compare("verifier pass killed before unlink %d" % j, m.split(" ", 1)[1])
+        self.incarnation_oracle(before, "in a pass killed before unlink %d" % j)
 
     def store_killed(self, what, j):
         """the store process is killed (SIGKILL) before the j-th rename it issues during a flush or a
